@@ -166,6 +166,7 @@ type actState struct {
 	inSwitch   bool
 	swRaw      string
 	oldMaster  string
+	skel             []string // control skeleton (SwitchSkel.tla): classes of the successful mutating calls after StartSwitchover
 	// mode machine (Daemon.tla)
 	t0, lq0          int64
 	mfile, mgrsw     bool
@@ -210,6 +211,66 @@ type modeRow struct {
 	Count    int      `json:"count"`
 }
 
+// skelRow (SwitchSkel.tla): the successful mutating calls of one switchover activation, in order, as classes
+type skelRow struct {
+	Kind  string   `json:"kind"` // "skel"
+	Scn   string   `json:"scn"`
+	By    string   `json:"by"`
+	Seq   []string `json:"seq"`
+	Ended string   `json:"ended"`
+	Count int      `json:"count"`
+}
+
+// vSkelClass maps a mutating call to its class in SwitchSkel.tla ("" = not part of the skeleton, see the aux list there)
+func vSkelClass(ev *verifsim.TraceEvent) string {
+	if ev.K == "sql" {
+		switch ev.Op {
+		case "SetSuperReadOnly", "SetReadOnlyNoSuper", "Kill":
+			return "ro"
+		case "StopIO":
+			return "stopio"
+		case "StartIO":
+			return "startio"
+		case "SetOnline":
+			return "online"
+		case "StopReplica":
+			return "stoprep"
+		case "ChangeSource":
+			return "changesrc"
+		case "StartReplica":
+			return "startrep"
+		case "ResetReplicaAll":
+			return "resetall"
+		case "SemiSyncSetMaster", "SemiSyncSetSlave", "SemiSyncDisable", "SetWaitCount":
+			return "semisync"
+		case "SetWritable":
+			return "writable"
+		case "SetFlush", "SetSyncBinlog":
+			return "aux:opt"
+		case "EnableEvent":
+			return "aux:events"
+		}
+		return "unknown:" + ev.Op
+	}
+	switch {
+	case ev.At == pathCurrentSwitch && ev.Op == "SetData":
+		return "aux:switchrecord"
+	case ev.At == pathCurrentSwitch && ev.Op == "Delete", ev.At == pathLastSwitch, ev.At == pathLastRejectedSwitch:
+		return "finish"
+	case ev.At == pathMasterNode:
+		return "master"
+	case ev.At == pathActiveNodes:
+		return "active"
+	case ev.At == pathRecovery || strings.HasPrefix(ev.At, pathRecovery+"/"):
+		return "recovery"
+	case strings.HasPrefix(ev.At, "optimization_nodes"):
+		return "aux:optnodes"
+	case strings.HasPrefix(ev.At, "timing"):
+		return "aux:timing"
+	}
+	return "unknown:" + ev.Op + " " + ev.At
+}
+
 func (m *modeRow) key() string {
 	return fmt.Sprint(m.By, m.State, m.Next, m.Locks, m.Released, m.Zk > 0, m.Maint, m.MFile, m.MgrSw, m.Lq0, m.Lq1, m.Ended, m.Owner,
 		func() string {
@@ -232,6 +293,7 @@ type vObserver struct {
 	tolds   []toldRow
 	modes   []modeRow
 	modeIdx map[string]int
+	skels   []skelRow
 }
 
 func newObserver(s *vSim, sc *vScenario) *vObserver {
@@ -362,6 +424,23 @@ func (o *vObserver) onEvent(ev *verifsim.TraceEvent, worldLocked bool) {
 					o.modes = append(o.modes, row)
 				}
 			}
+			if a != nil && a.inSwitch && ev.Arg == a.state {
+				ended := "exit"
+				if ev.Op == "ExitDead" {
+					ended = "dead"
+				}
+				key := strings.Join(a.skel, ",") + "|" + ended + "|" + ev.By
+				found := false
+				for k := range o.skels {
+					if strings.Join(o.skels[k].Seq, ",")+"|"+o.skels[k].Ended+"|"+o.skels[k].By == key {
+						o.skels[k].Count++
+						found = true
+					}
+				}
+				if !found {
+					o.skels = append(o.skels, skelRow{Kind: "skel", Scn: o.sc.ID, By: ev.By, Seq: nn(a.skel), Ended: ended, Count: 1})
+				}
+			}
 			if a != nil && a.nacts > 0 {
 				found := false
 				for k := range o.actRows {
@@ -413,6 +492,9 @@ func (o *vObserver) onEvent(ev *verifsim.TraceEvent, worldLocked bool) {
 				a.maintErr = true
 			}
 		}
+		if a.inSwitch && ev.Mut && ev.Res == "ok" && (ev.Op == "Create" || ev.Op == "SetData" || ev.Op == "Delete") {
+			a.skel = append(a.skel, vSkelClass(ev))
+		}
 		if (ev.Op == "Create" || ev.Op == "SetData" || ev.Op == "Delete") && vClusterWidePath(ev.At) {
 			a.nacts++
 			if !a.told && a.unconfirmed == "" {
@@ -436,6 +518,9 @@ func (o *vObserver) onEvent(ev *verifsim.TraceEvent, worldLocked bool) {
 		a := o.acts[ev.By]
 		if a == nil {
 			return
+		}
+		if a.inSwitch && ev.Mut && ev.Res == "ok" {
+			a.skel = append(a.skel, vSkelClass(ev))
 		}
 		if ev.Mut && ev.At != ev.By {
 			a.nacts++
@@ -540,6 +625,7 @@ type vRunResult struct {
 	acts    []actRow
 	tolds   []toldRow
 	modes   []modeRow
+	skels   []skelRow
 	census  []string
 	trace   []verifsim.TraceEvent
 	final   map[string]hostRow
@@ -717,6 +803,7 @@ func vRun(t *testing.T, sc *vScenario, opt vRunOpts) (res *vRunResult) {
 		res.acts = obs.actRows
 		res.tolds = obs.tolds
 		res.modes = obs.modes
+		res.skels = obs.skels
 		res.final = s.hostsSnapshot(true)
 		res.tree = s.treeSnapshot()
 		for h, in := range s.insts {
